@@ -75,7 +75,7 @@ def run(repo, R):
             R.ok("SIZE", f.site, f"table sized {got}")
     report(R, f, findings)
     if ex is not None:
-        R.floor("Se", nse, 8, "moment-order recursion stores")
+        R.floor("Se", nse, 4, "moment-order recursion stores")
     # argument checks dominate the kernel call
     fn = f.node
     first_call = min([n.lineno for n in ast.walk(fn) if isinstance(n, ast.Call) and ast.unparse(n.func).startswith("_compute")] or [0])
